@@ -457,22 +457,28 @@ theorem length_allRanked_subsetProfile_le (p : Profile) (S : List Cand) :
 
 theorem length_slotCands_le (l : List Slot) : (slotCands l).length ≤ l.length := List.length_filterMap_le _ _
 
-theorem eliminateOne_error {p : Profile} {e : Err} (h : eliminateOne p = .error e) : e = .other "IndexError" := by
-  unfold eliminateOne at h
+/-- the raw `get_n_best` of `eliminate_one` fails only on a profile without any candidate -/
+theorem eliminateOneRaw_error {p : Profile} {e : Err} (h : eliminateOneRaw p = .error e) :
+    e = .other "IndexError" ∧ allRankedCandidates p = [] := by
+  have hk := keys_firstPrefTotals p
+  unfold eliminateOneRaw at h
   simp only at h
   split at h
-  · simp only [Except.error.injEq] at h; exact h.symm
+  · rename_i h0
+    simp only [Except.error.injEq] at h
+    refine ⟨h.symm, ?_⟩
+    rw [← hk, List.length_eq_zero_iff.mp h0]; rfl
   · simp at h
   · simp at h
 
 /-- `eliminate_one` keeps one place fewer than there are candidates, in the selection shape -/
-theorem eliminateOne_ok {p : Profile} {rem : List Slot} (h : eliminateOne p = .ok rem) :
+theorem eliminateOneRaw_ok {p : Profile} {rem : List Slot} (h : eliminateOneRaw p = .ok rem) :
     rem.length + 1 = (allRankedCandidates p).length ∧
       (1 ≤ rem.length → SelShape (allRankedCandidates p) rem.length rem) := by
   have hk := keys_firstPrefTotals p
   have hlen : (firstPrefTotals p).length = (allRankedCandidates p).length := by
     rw [← hk]; simp [keys]
-  unfold eliminateOne at h
+  unfold eliminateOneRaw at h
   simp only at h
   split at h
   · simp at h
@@ -487,6 +493,52 @@ theorem eliminateOne_ok {p : Profile} {rem : List Slot} (h : eliminateOne p = .o
     refine ⟨by omega, fun _ => ?_⟩
     have := getNBest_shape_of_keys (firstPrefTotals p) _ hk (nodup_allRanked p) (m + 1) (by omega) (by omega)
     exact this
+
+/-- `eliminate_one` (after fix 30bd79e): besides the IndexError of a profile without candidates the only error is the
+    declared refusal of a tied elimination -/
+theorem eliminateOne_error {p : Profile} {e : Err} (h : eliminateOne p = .error e) :
+    (e = .other "IndexError" ∧ allRankedCandidates p = []) ∨ e = .notImplemented := by
+  unfold eliminateOne at h
+  split at h
+  · rename_i e' hraw
+    simp only [Except.error.injEq] at h; subst h
+    exact Or.inl (eliminateOneRaw_error hraw)
+  · split at h
+    · simp only [Except.error.injEq] at h; exact Or.inr h.symm
+    · simp at h
+
+theorem eliminateOne_ok {p : Profile} {rem : List Slot} (h : eliminateOne p = .ok rem) :
+    rem.length + 1 = (allRankedCandidates p).length ∧
+      (1 ≤ rem.length → SelShape (allRankedCandidates p) rem.length rem) :=
+  eliminateOneRaw_ok (eliminateOne_spec h).1
+
+/-- the candidates of an answer without tie object: as many as places, distinct, candidates of `C` -/
+theorem slotCands_of_noTie {C : List Cand} {k : Nat} {rem : List Slot} (hs : SelShape C k rem)
+    (hno : rem.any isTie = false) :
+    (slotCands rem).length = k ∧ (slotCands rem).Nodup ∧ ∀ c ∈ slotCands rem, c ∈ C := by
+  have hmap : rem = (slotCands rem).map Slot.cand := by
+    clear hs
+    induction rem with
+    | nil => rfl
+    | cons x xs ih =>
+      simp only [List.any_cons, Bool.or_eq_false_iff] at hno
+      cases x with
+      | cand c =>
+        have := ih hno.2
+        simp only [slotCands, List.filterMap_cons, List.map_cons] at this ⊢
+        rw [← this]
+      | tie T => simp [isTie] at hno
+  have hel : electedOf rem = slotCands rem := by
+    conv_lhs => rw [hmap]
+    exact electedOf_map_cand _
+  refine ⟨?_, hel ▸ hs.nodup, ?_⟩
+  · have := hs.length
+    rw [hmap, List.length_map] at this
+    exact this
+  · intro c hc
+    apply hs.cand_ok c
+    rw [hmap]
+    exact List.mem_map.mpr ⟨c, hc, rfl⟩
 
 theorem badd_ne_nil (acc : Profile) (b : Ballot) (x : Rat) : badd acc b x ≠ [] := by
   cases acc with
@@ -507,6 +559,109 @@ theorem subsetProfile_ne_nil {p : Profile} (S : List Cand) (h : p ≠ []) : subs
   cases p with
   | nil => exact absurd rfl h
   | cons b bs => rw [List.foldl_cons]; exact key _ _ (badd_ne_nil _ _ _)
+
+theorem mem_subsetBallot_of {T : List Cand} {b : Ballot} {c : Cand} (hT : c ∈ T) (hc : c ∈ b.flatMap itemCands) :
+    c ∈ (subsetBallot T b).flatMap itemCands := by
+  induction b with
+  | nil => simp at hc
+  | cons it rest ih =>
+    rw [List.flatMap_cons, List.mem_append] at hc
+    cases it with
+    | one d =>
+      unfold subsetBallot
+      split
+      · rw [List.flatMap_cons, List.mem_append]
+        rcases hc with hc | hc
+        · exact Or.inl hc
+        · exact Or.inr (ih hc)
+      · rename_i hd
+        rcases hc with hc | hc
+        · simp only [itemCands, List.mem_singleton] at hc
+          subst hc
+          exact absurd (List.contains_iff_mem.mpr hT) hd
+        · exact ih hc
+    | shared cs =>
+      unfold subsetBallot
+      have hfil : c ∈ cs → c ∈ cs.filter (fun c => T.contains c) := fun h =>
+        List.mem_filter.mpr ⟨h, List.contains_iff_mem.mpr hT⟩
+      split
+      · rename_i hnil
+        rcases hc with hc | hc
+        · have := hfil hc; rw [hnil] at this; cases this
+        · exact ih hc
+      · rename_i d hone
+        rw [List.flatMap_cons, List.mem_append]
+        rcases hc with hc | hc
+        · have := hfil hc; rw [hone] at this
+          exact Or.inl (by simpa [itemCands] using this)
+        · exact Or.inr (ih hc)
+      · rw [List.flatMap_cons, List.mem_append]
+        rcases hc with hc | hc
+        · exact Or.inl (hfil hc)
+        · exact Or.inr (ih hc)
+
+theorem key_mem_badd (acc : Profile) (b : Ballot) (x : Rat) : ∃ e ∈ badd acc b x, e.1 = b := by
+  induction acc with
+  | nil => exact ⟨(b, x), by simp [badd], rfl⟩
+  | cons a rest ih =>
+    obtain ⟨q, y⟩ := a
+    unfold badd
+    split
+    · rename_i h; exact ⟨(q, y + x), by simp, h⟩
+    · obtain ⟨e, he, hb⟩ := ih
+      exact ⟨e, List.mem_cons_of_mem _ he, hb⟩
+
+theorem key_kept_badd {acc : Profile} {k : Ballot} (b : Ballot) (x : Rat) (h : ∃ e ∈ acc, e.1 = k) :
+    ∃ e ∈ badd acc b x, e.1 = k := by
+  induction acc with
+  | nil => obtain ⟨e, he, _⟩ := h; cases he
+  | cons a rest ih =>
+    obtain ⟨q, y⟩ := a
+    obtain ⟨e, he, hk⟩ := h
+    unfold badd
+    split
+    · rename_i hq
+      rcases List.mem_cons.mp he with rfl | he
+      · exact ⟨(q, y + x), by simp, hk⟩
+      · exact ⟨e, List.mem_cons_of_mem _ he, hk⟩
+    · rcases List.mem_cons.mp he with rfl | he
+      · exact ⟨(q, y), by simp, hk⟩
+      · obtain ⟨e', he', hk'⟩ := ih ⟨e, he, hk⟩
+        exact ⟨e', List.mem_cons_of_mem _ he', hk'⟩
+
+theorem key_mem_subsetProfile {p : Profile} (T : List Cand) {b : Ballot × Rat} (hb : b ∈ p) :
+    ∃ e ∈ subsetProfile p T, e.1 = subsetBallot T b.1 := by
+  unfold subsetProfile
+  have key : ∀ (l : Profile) (acc : Profile), (b ∈ l ∨ ∃ e ∈ acc, e.1 = subsetBallot T b.1) →
+      ∃ e ∈ l.foldl (fun acc b => badd acc (subsetBallot T b.1) b.2) acc, e.1 = subsetBallot T b.1 := by
+    intro l
+    induction l with
+    | nil =>
+      intro acc h
+      rcases h with h | h
+      · cases h
+      · exact h
+    | cons x xs ih =>
+      intro acc h
+      rw [List.foldl_cons]
+      apply ih
+      rcases h with h | h
+      · rcases List.mem_cons.mp h with rfl | h
+        · exact Or.inr (key_mem_badd _ _ _)
+        · exact Or.inl h
+      · exact Or.inr (key_kept_badd _ _ h)
+  exact key p [] (Or.inl hb)
+
+/-- subsetting keeps every candidate of the subset that was ranked before -/
+theorem mem_allRanked_subsetProfile {p : Profile} {T : List Cand} {c : Cand} (hT : c ∈ T)
+    (hc : c ∈ allRankedCandidates p) : c ∈ allRankedCandidates (subsetProfile p T) := by
+  obtain ⟨b, hb, hcb⟩ := mem_allRanked hc
+  obtain ⟨e, he, hk⟩ := key_mem_subsetProfile T hb
+  exact item_mem_allRanked he (by rw [hk]; exact mem_subsetBallot_of hT hcb)
+
+theorem length_allRanked_subsetProfile_ge {p : Profile} {S : List Cand} (hnd : S.Nodup)
+    (hsub : ∀ c ∈ S, c ∈ allRankedCandidates p) : S.length ≤ (allRankedCandidates (subsetProfile p S)).length :=
+  length_le_of_nodup_subset hnd (fun c hc => mem_allRanked_subsetProfile hc (hsub c hc))
 
 theorem benhamCW_mem {p : Profile} {c : Cand} (h : benhamCW p = some c) : c ∈ allRankedCandidates p := by
   unfold benhamCW at h
@@ -541,27 +696,39 @@ theorem benhamLoop_shape (votes : Profile) : ∀ (f : Nat) (cur : Profile) (r : 
           exact this.mono hsub
         · exact ih _ r (fun c hc => (allRanked_subsetProfile hc).2) h
 
+/-- with at least two candidates left (and they are candidates of the votes) the Benham loop never crashes: the only
+    error is the declared refusal of a tied elimination; the loop ends within its bound -/
 theorem benhamLoop_error (votes : Profile) : ∀ (f : Nat) (cur : Profile) (e : Err),
-    (allRankedCandidates cur).length < f → benhamLoop votes f cur = .error e → e = .other "IndexError" := by
+    (allRankedCandidates cur).length < f → 2 ≤ (allRankedCandidates cur).length →
+    (∀ c ∈ allRankedCandidates cur, c ∈ allRankedCandidates votes) →
+    benhamLoop votes f cur = .error e → e = .notImplemented := by
   intro f
   induction f with
   | zero => intro cur e hf; omega
   | succ f ih =>
-    intro cur e hf h
+    intro cur e hf h2 hsub h
     unfold benhamLoop at h
     split at h
     · simp at h
     · split at h
       · rename_i e' hel
         simp only [Except.error.injEq] at h; subst h
-        exact eliminateOne_error hel
+        rcases eliminateOne_error hel with ⟨_, h0⟩ | hni
+        · rw [h0] at h2; simp at h2
+        · exact hni
       · rename_i remains hel
         split at h
         · simp at h
-        · apply ih _ e _ h
+        · rename_i hlen
+          obtain ⟨hl, hshape⟩ := eliminateOne_ok hel
+          have hno : remains.any isTie = false := by
+            rcases (eliminateOne_spec hel).2 with h1 | h1
+            · omega
+            · exact h1
+          obtain ⟨hcl, hcnd, hcsub⟩ := slotCands_of_noTie (hshape (by omega)) hno
+          have hge := length_allRanked_subsetProfile_ge (p := votes) hcnd (fun c hc => hsub c (hcsub c hc))
+          apply ih _ e _ (by omega) (fun c hc => (allRanked_subsetProfile hc).2) h
           have h1 := length_allRanked_subset_le votes (slotCands remains)
-          have h2 := length_slotCands_le remains
-          have h3 := (eliminateOne_ok hel).1
           omega
 
 theorem lone_or_not (p : Profile) : (∃ c, allRankedCandidates p = [c]) ∨ ∀ c, allRankedCandidates p ≠ [c] := by
@@ -586,24 +753,26 @@ theorem benham_shape {p : Profile} (_h1 : 1 ≤ (allRankedCandidates p).length) 
 theorem benham_lone_elected {p : Profile} {c : Cand} (h : allRankedCandidates p = [c]) : benham p = .ok [Slot.cand c] :=
   benham_lone h
 
-/- Full statement (FALSE of the current code, `benham_refusals_witness`; open finding C05-benham-elimination-tie-crash):
-     theorem benham_refusals : 1 ≤ (allRankedCandidates p).length → benham p = .error e →
-       e = .votingSystemError ∨ e = .notImplemented -/
-
-/-- **Benham, refusals (partial).**  The evaluator declares no refusal; the one error value it produces is the
-    IndexError of `get_n_best` over an empty table, reached when an elimination tie leaves no candidate; it needs at
-    least two candidates (a lone candidate is elected).  The loop always ends within its bound (the candidate set
-    shrinks every round). -/
-theorem benham_refusals_partial {p : Profile} {e : Err} (h : benham p = .error e) :
-    e = .other "IndexError" ∧ ∀ c, allRankedCandidates p ≠ [c] := by
+/-- **Benham, refusals (FULL since fix 30bd79e).**  With at least one candidate the only error outcome is the declared
+    `NotImplementedError` of a tied elimination: the `IndexError` of an emptied candidate set is unreachable (every
+    round keeps at least two candidates) and the loop ends within its bound. -/
+theorem benham_refusals {p : Profile} (h1 : 1 ≤ (allRankedCandidates p).length) {e : Err} (h : benham p = .error e) :
+    e = .votingSystemError ∨ e = .notImplemented := by
   rcases lone_or_not p with ⟨c, hc⟩ | hnl
   · rw [benham_lone hc] at h; cases h
   · rw [benham_of_not_lone hnl] at h
-    exact ⟨benhamLoop_error p _ p e (by omega) h, hnl⟩
+    have h2 : 2 ≤ (allRankedCandidates p).length := by
+      match hl : allRankedCandidates p with
+      | [] => rw [hl] at h1; simp at h1
+      | [c] => exact absurd hl (hnl c)
+      | _ :: _ :: _ => simp
+    exact Or.inr (benhamLoop_error p _ p e (by omega) h2 (fun _ h => h) h)
 
+/-- the refusal is reached: a three-way first-preference tie (abc:2, bca:2, cab:2) — it used to end in `IndexError`
+    (fixed finding C05-benham-elimination-tie-crash) -/
 theorem benham_refusals_witness :
     1 ≤ (allRankedCandidates C05.exCycleProfile).length ∧
-      benham C05.exCycleProfile = .error (.other "IndexError") := by decide +kernel
+      benham C05.exCycleProfile = .error .notImplemented := by decide +kernel
 
 example : 1 ≤ (allRankedCandidates C05.exProfile).length ∧ benham C05.exProfile = .ok [Slot.cand 1] := by
   decide +kernel
@@ -627,78 +796,153 @@ theorem tideman_shape {smith : Bool} {p : Profile} (_h1 : 1 ≤ (allRankedCandid
     · simp at h
   · simp at h
 
-theorem tidemanTier_error (smith : Bool) : ∀ (f : Nat) (rv : Profile) (e : Err), rv ≠ [] →
-    (allRankedCandidates rv).length < f → tidemanTier smith f rv = .error e → e = .other "IndexError" := by
+theorem tier_sset_facts (smith : Bool) (rv : Profile) :
+    let sset0 := smithSchwartz (rankedToCondorcet rv) smith
+    let sset := if sset0.isEmpty then allRankedCandidates rv else sset0
+    sset.Nodup ∧ (∀ c ∈ sset, c ∈ allRankedCandidates rv) ∧ (1 ≤ (allRankedCandidates rv).length → sset ≠ []) := by
+  simp only
+  split
+  · exact ⟨nodup_allRanked rv, fun _ h => h, fun h hn => by rw [hn] at h; simp at h⟩
+  · rename_i hne
+    exact ⟨nodup_smithSchwartz _ smith,
+      fun c hc => candidates_rankedToCondorcet_sub rv (smithSchwartz_sub_candidates hc),
+      fun _ hn => hne (by rw [hn]; rfl)⟩
+
+/-- a tier that has a candidate never crashes: its only error is the declared refusal of a tied elimination -/
+theorem tidemanTier_error (smith : Bool) : ∀ (f : Nat) (rv : Profile) (e : Err),
+    1 ≤ (allRankedCandidates rv).length → (allRankedCandidates rv).length < f →
+    tidemanTier smith f rv = .error e → e = .notImplemented := by
   intro f
   induction f with
   | zero => intro rv e _ hf; omega
   | succ f ih =>
-    intro rv e hne hf h
+    intro rv e h1 hf h
+    obtain ⟨hsnd, hssub, hsne⟩ := tier_sset_facts smith rv
     unfold tidemanTier at h
     split at h
-    · rename_i hemp; exact absurd (List.isEmpty_iff.1 hemp) hne
-    · simp only at h
+    · simp only [Except.error.injEq] at h; exact h.symm
+    · simp only at h hsnd hssub hsne
       split at h
       · simp at h
-      · split at h
+      · rename_i hnot1
+        generalize hs : (if (smithSchwartz (rankedToCondorcet rv) smith).isEmpty = true then allRankedCandidates rv
+            else smithSchwartz (rankedToCondorcet rv) smith) = sset at h hsnd hssub hsne hnot1
+        have hs2 : 2 ≤ sset.length := by
+          match sset, hsne h1, hnot1 with
+          | [c], _, hn => exact absurd rfl (hn c)
+          | _ :: _ :: _, _, _ => simp
+        have hrv2 := length_allRanked_subsetProfile_ge (p := rv) hsnd hssub
+        split at h
         · rename_i e' hel
           simp only [Except.error.injEq] at h; subst h
-          exact eliminateOne_error hel
+          rcases eliminateOne_error hel with ⟨_, h0⟩ | hni
+          · rw [h0] at hrv2; simp only [List.length_nil] at hrv2; omega
+          · exact hni
+        · simp only [Except.error.injEq] at h; exact h.symm
         · simp at h
-        · rename_i rem _ hel
-          apply ih _ e (subsetProfile_ne_nil _ (subsetProfile_ne_nil _ hne)) _ h
-          have h1 := length_allRanked_subset_le
-            (subsetProfile rv (smithSchwartz (rankedToCondorcet rv) smith)) (slotCands rem)
-          have h2 := length_slotCands_le rem
-          have h3 := (eliminateOne_ok hel).1
-          have h4 := length_allRanked_subsetProfile_le rv (smithSchwartz (rankedToCondorcet rv) smith)
+        · rename_i rem hnt hn1 hel
+          obtain ⟨hl, hshape⟩ := eliminateOne_ok hel
+          have hlen2 : 2 ≤ rem.length := by
+            have : rem.length ≠ 1 := by
+              intro h1'
+              match rem, h1' with
+              | [x], _ =>
+                cases x with
+                | cand c => exact hn1 _ rfl
+                | tie T => exact hnt _ rfl
+            omega
+          have hno : rem.any isTie = false := by
+            rcases (eliminateOne_spec hel).2 with h1' | h1'
+            · omega
+            · exact h1'
+          obtain ⟨hcl, hcnd, hcsub⟩ := slotCands_of_noTie (hshape (by omega)) hno
+          have hge := length_allRanked_subsetProfile_ge (p := subsetProfile rv sset) hcnd hcsub
+          apply ih _ e (by omega) _ h
+          have h1' := length_allRanked_subset_le (subsetProfile rv sset) (slotCands rem)
+          have h4 := length_allRanked_subsetProfile_le rv sset
           omega
 
-/-- the tier as a whole: a lone candidate wins it; otherwise the only error is the IndexError of an elimination tie -/
-theorem tidemanRunTier_error (smith : Bool) (f : Nat) (rv : Profile) (e : Err) (hne : rv ≠ [])
-    (hf : (allRankedCandidates rv).length < f) (h : tidemanRunTier smith f rv = .error e) : e = .other "IndexError" := by
+/-- the winner of a tier is a single candidate of the tier's ballots, never a `Tie` -/
+theorem tidemanTier_ok (smith : Bool) : ∀ (f : Nat) (rv : Profile) (s : Slot),
+    tidemanTier smith f rv = .ok s → ∃ c, s = Slot.cand c ∧ c ∈ allRankedCandidates rv := by
+  intro f
+  induction f with
+  | zero => intro rv s h; simp [tidemanTier] at h
+  | succ f ih =>
+    intro rv s h
+    obtain ⟨_, hssub, _⟩ := tier_sset_facts smith rv
+    unfold tidemanTier at h
+    split at h
+    · simp at h
+    · simp only at h hssub
+      split at h
+      · rename_i c hc
+        simp only [Except.ok.injEq] at h; subst h
+        exact ⟨c, rfl, hssub c (by rw [hc]; simp)⟩
+      · split at h
+        · simp at h
+        · simp at h
+        · rename_i s' hnt hel
+          simp only [Except.ok.injEq] at h; subst h
+          have hshape := (eliminateOne_ok hel).2 (by simp)
+          cases s' with
+          | tie T => exact absurd rfl (hnt T)
+          | cand c =>
+            exact ⟨c, rfl, (allRanked_subsetProfile (hshape.cand_ok c (by simp))).2⟩
+        · obtain ⟨c, hc, hm⟩ := ih _ s h
+          exact ⟨c, hc, (allRanked_subsetProfile (allRanked_subsetProfile hm).2).2⟩
+
+theorem tidemanRunTier_ok (smith : Bool) (f : Nat) (rv : Profile) (s : Slot)
+    (h : tidemanRunTier smith f rv = .ok s) : ∃ c, s = Slot.cand c ∧ c ∈ allRankedCandidates rv := by
+  unfold tidemanRunTier at h
+  split at h
+  · rename_i c hc
+    simp only [Except.ok.injEq] at h; subst h
+    exact ⟨c, rfl, by rw [hc]; simp⟩
+  · exact tidemanTier_ok smith f rv s h
+
+/-- the tier as a whole: a lone candidate wins it; otherwise the only error is the declared refusal -/
+theorem tidemanRunTier_error (smith : Bool) (f : Nat) (rv : Profile) (e : Err)
+    (h1 : 1 ≤ (allRankedCandidates rv).length)
+    (hf : (allRankedCandidates rv).length < f) (h : tidemanRunTier smith f rv = .error e) : e = .notImplemented := by
   rcases lone_or_not rv with ⟨c, hc⟩ | hnl
   · unfold tidemanRunTier at h; rw [hc] at h; cases h
   · rw [tidemanRunTier_of_not_lone hnl] at h
-    exact tidemanTier_error smith f rv e hne hf h
+    exact tidemanTier_error smith f rv e h1 hf h
 
-/- Full statement (FALSE of the current code, `tideman_refusals_witness`; open findings C05-tideman-elimination-tie-crash,
-   C05-tideman-tie-keyerror):
-     theorem tideman_refusals : 1 ≤ (allRankedCandidates p).length → tideman smith p = .error e →
-       e = .votingSystemError ∨ e = .notImplemented -/
-
-/-- **Tideman alternative, refusals (partial).**  With at least one candidate the declared NotImplementedError (no
-    votes) is never raised and the tier loop always ends within its bound; the error values that do occur are the
-    IndexError of `get_n_best` over an empty table (elimination tie) and the KeyError of `eligible_set.remove(Tie)`
-    (tied last elimination); both need at least two candidates (a lone candidate is seated, fix bddde61). -/
-theorem tideman_refusals_partial {smith : Bool} {p : Profile} (h1 : 1 ≤ (allRankedCandidates p).length) {e : Err}
-    (h : tideman smith p = .error e) :
-    (e = .other "IndexError" ∨ e = .other "KeyError") ∧ ∀ c, allRankedCandidates p ≠ [c] := by
-  have hne : p ≠ [] := by
-    rintro rfl
-    rw [allRanked_nil] at h1
-    simp at h1
-  refine ⟨?_, fun c hc => by rw [tideman_lone hc] at h; cases h⟩
+/-- **Tideman alternative, refusals (FULL since fix 30bd79e).**  With at least one candidate the only error outcome is
+    the declared `NotImplementedError` of a tied elimination: the `IndexError` of an emptied tier and the `KeyError` of
+    `eligible_set.remove(Tie)` are unreachable (a tier keeps at least two candidates and answers with one candidate of
+    its ballots), and the tier loop ends within its bound. -/
+theorem tideman_refusals {smith : Bool} {p : Profile} (h1 : 1 ≤ (allRankedCandidates p).length) {e : Err}
+    (h : tideman smith p = .error e) : e = .votingSystemError ∨ e = .notImplemented := by
   unfold tideman at h
   split at h
   · rename_i e' ht
     simp only [Except.error.injEq] at h; subst h
-    exact Or.inl (tidemanRunTier_error smith _ p _ hne (by omega) ht)
-  · split at h
+    exact Or.inr (tidemanRunTier_error smith _ p _ h1 (by omega) ht)
+  · rename_i c ht
+    obtain ⟨c', hc', hm⟩ := tidemanRunTier_ok smith _ p _ ht
+    injection hc' with hc'; subst hc'
+    split at h
     · simp at h
-    · simp only [Except.error.injEq] at h; exact Or.inr h.symm
-  · simp only [Except.error.injEq] at h; exact Or.inr h.symm
+    · rename_i hcon; exact absurd (List.contains_iff_mem.mpr hm) hcon
+  · rename_i T ht
+    obtain ⟨c', hc', _⟩ := tidemanRunTier_ok smith _ p _ ht
+    cases hc'
 
 /-- without any vote the declared refusal -/
 theorem tideman_no_votes (smith : Bool) : tideman smith [] = .error .notImplemented := by
   cases smith <;> decide +kernel
 
+/-- the refusal is reached: a three-way first-preference tie, and a two-candidate dead heat — they used to end in
+    `IndexError` resp. `KeyError` (fixed findings C05-tideman-elimination-tie-crash, C05-tideman-tie-keyerror) -/
 theorem tideman_refusals_witness :
     1 ≤ (allRankedCandidates C05.exCycleProfile).length ∧
-      tideman true C05.exCycleProfile = .error (.other "IndexError") ∧
-      tideman false C05.exCycleProfile = .error (.other "IndexError") ∧
+      tideman true C05.exCycleProfile = .error .notImplemented ∧
+      tideman false C05.exCycleProfile = .error .notImplemented ∧
     1 ≤ (allRankedCandidates [([.one 0, .one 1], (1 : Rat)), ([.one 1, .one 0], 1)]).length ∧
-      tideman true [([.one 0, .one 1], 1), ([.one 1, .one 0], 1)] = .error (.other "KeyError") := by decide +kernel
+      tideman true [([.one 0, .one 1], 1), ([.one 1, .one 0], 1)] = .error .notImplemented := by decide +kernel
 
 example : 1 ≤ (allRankedCandidates C05.exProfile).length ∧ tideman true C05.exProfile = .ok [Slot.cand 1] ∧
     tideman false C05.exProfile = .ok [Slot.cand 1] := by decide +kernel
@@ -803,55 +1047,65 @@ theorem tidemanN_shape {smith : Bool} {p : Profile} {n : Nat} (h1 : 1 ≤ n) (hn
     ⟨nodup_allRanked p, List.nodup_nil, by simp, fun _ h => h, by simp, by simp, (by simp only [List.length_nil]; omega), hn⟩ h
 
 theorem tidemanLoop_error (smith : Bool) (tf n : Nat) :
-    ∀ (f : Nat) (tier : Profile) (eligible : List Cand) (acc : List Slot) (e : Err), tier ≠ [] →
+    ∀ (f : Nat) (tier : Profile) (eligible : List Cand) (acc : List Slot) (e : Err), eligible ≠ [] → eligible.Nodup →
+      (∀ c, c ∈ allRankedCandidates tier ↔ c ∈ eligible) →
       (allRankedCandidates tier).length < tf → eligible.length < f →
-      tidemanLoop smith tf f tier eligible acc n = .error e → e = .other "IndexError" ∨ e = .other "KeyError" := by
+      tidemanLoop smith tf f tier eligible acc n = .error e → e = .notImplemented := by
   intro f
   induction f with
-  | zero => intro tier eligible acc e _ _ hf; omega
+  | zero => intro tier eligible acc e _ _ _ _ hf; omega
   | succ f ih =>
-    intro tier eligible acc e hne htf hf h
+    intro tier eligible acc e hne hnd hiff htf hf h
+    have h1 : 1 ≤ (allRankedCandidates tier).length := by
+      obtain ⟨c, hc⟩ := List.exists_mem_of_ne_nil _ hne
+      exact List.length_pos_of_mem ((hiff c).mpr hc)
     unfold tidemanLoop at h
     split at h
     · rename_i e' ht
       simp only [Except.error.injEq] at h; subst h
-      exact Or.inl (tidemanRunTier_error smith tf tier _ hne htf ht)
-    · simp only [Except.error.injEq] at h; exact Or.inr h.symm
-    · rename_i c _
+      exact tidemanRunTier_error smith tf tier _ h1 htf ht
+    · rename_i T ht
+      obtain ⟨c', hc', _⟩ := tidemanRunTier_ok smith _ tier _ ht
+      cases hc'
+    · rename_i c ht
+      obtain ⟨c', hc', hm⟩ := tidemanRunTier_ok smith _ tier _ ht
+      injection hc' with hc'; subst hc'
+      have hce : c ∈ eligible := (hiff c).mp hm
       split at h
-      · simp only [Except.error.injEq] at h; exact Or.inr h.symm
       · rename_i hcon
-        have hce : c ∈ eligible := by simpa using hcon
-        simp only at h
+        simp only [Bool.not_eq_true', List.contains_eq_mem, decide_eq_false_iff_not] at hcon
+        exact absurd hce hcon
+      · simp only at h
         split at h
         · cases h
-        · refine ih _ _ _ e (subsetProfile_ne_nil _ hne) ?_ ?_ h
+        · rename_i hgo
+          simp only [Bool.or_eq_true, decide_eq_true_eq, List.isEmpty_iff, not_or] at hgo
+          have hsubE : ∀ x ∈ eraseCand eligible c, x ∈ eligible := by
+            intro x hx; rw [eraseCand_eq_erase] at hx; exact List.mem_of_mem_erase hx
+          refine ih _ _ _ e hgo.2 (by rw [eraseCand_eq_erase]; exact hnd.erase c) ?_ ?_ ?_ h
+          · intro x
+            constructor
+            · intro hx; exact (allRanked_subsetProfile hx).1
+            · intro hx; exact mem_allRanked_subsetProfile hx ((hiff x).mpr (hsubE x hx))
           · have := length_allRanked_subsetProfile_le tier (eraseCand eligible c)
             omega
           · rw [eraseCand_eq_erase, List.length_erase_of_mem hce]
             have := List.length_pos_of_mem hce
             omega
 
-/- Full statement (FALSE of the current code, `tidemanN_refusals_witness`; open findings C05-tideman-elimination-tie-crash,
-   C05-tideman-tie-keyerror):
-     theorem tidemanN_refusals : 1 ≤ (allRankedCandidates p).length → tidemanN smith p n = .error e →
-       e = .votingSystemError ∨ e = .notImplemented -/
-
-/-- **Tideman alternative for `n` seats, refusals (partial)**: with at least one candidate neither loop exhausts its
-    bound and the declared NotImplementedError is never raised; what does occur is the IndexError of an elimination
-    tie and the KeyError of a tied tier. -/
-theorem tidemanN_refusals_partial {smith : Bool} {p : Profile} {n : Nat} (h1 : 1 ≤ (allRankedCandidates p).length)
-    {e : Err} (h : tidemanN smith p n = .error e) : e = .other "IndexError" ∨ e = .other "KeyError" := by
-  have hne : p ≠ [] := by
-    rintro rfl
-    rw [allRanked_nil] at h1
-    simp at h1
+/-- **Tideman alternative for `n` seats, refusals (FULL since fix 30bd79e)**: with at least one candidate the only error
+    outcome is the declared `NotImplementedError` of a tied elimination; neither loop exhausts its bound, no tier is
+    emptied (`IndexError`) and no tier answers with a `Tie` or a stranger (`KeyError`). -/
+theorem tidemanN_refusals {smith : Bool} {p : Profile} {n : Nat} (h1 : 1 ≤ (allRankedCandidates p).length)
+    {e : Err} (h : tidemanN smith p n = .error e) : e = .votingSystemError ∨ e = .notImplemented := by
   unfold tidemanN at h
-  exact tidemanLoop_error smith _ n _ p _ [] e hne (by omega) (by omega) h
+  refine Or.inr (tidemanLoop_error smith _ n _ p _ [] e ?_ (nodup_allRanked p) (fun _ => Iff.rfl) (by omega) (by omega) h)
+  intro h0; rw [h0] at h1; simp at h1
 
+/-- the refusal is reached: an elimination tie in the first tier; a dead heat for the second seat -/
 theorem tidemanN_refusals_witness :
-    tidemanN true C05.exCycleProfile 2 = .error (.other "IndexError") ∧
-    tidemanN true [([.one 0, .one 1, .one 2], (1 : Rat)), ([.one 0, .one 2, .one 1], 1)] 2 = .error (.other "KeyError") := by
+    tidemanN true C05.exCycleProfile 2 = .error .notImplemented ∧
+    tidemanN true [([.one 0, .one 1, .one 2], (1 : Rat)), ([.one 0, .one 2, .one 1], 1)] 2 = .error .notImplemented := by
   decide +kernel
 
 example : tidemanN true C05.exProfile 2 = .ok [Slot.cand 1, Slot.cand 0] := by decide +kernel
